@@ -57,7 +57,7 @@ SessHead == /\ Is("head") /\ Adv
            /\ sid' = Ev.id /\ main' = Ev.main /\ bps' = SeqToSet(Ev.bps) /\ pass' = Ev.pass
            /\ kst' = [t \in ts |-> IF t = Ev.main THEN "stopped" ELSE "unborn"]
            /\ kstop' = [t \in ts |-> IF t = Ev.main THEN "sigstop" ELSE "none"]
-           /\ unrep' = [t \in ts |-> FALSE] /\ intr' = [t \in ts |-> FALSE]
+           /\ unrep' = [t \in ts |-> FALSE] /\ intr' = [t \in ts |-> "no"]
            /\ mid' = [t \in ts |-> FALSE] /\ sstep' = [t \in ts |-> FALSE]
            /\ at' = [t \in ts |-> 0] /\ owed' = [t \in ts |-> FALSE] /\ nrep' = [t \in ts |-> 0]
         /\ code' = {} /\ prompt' = FALSE
@@ -68,8 +68,11 @@ TaskState(tasks, t) == IF ToString(t) \in DOMAIN tasks THEN tasks[ToString(t)] E
 ProbeTids(tasks) == {t \in Tids : ToString(t) \in DOMAIN tasks}
 \* the property's first sentence, on the independent observable: every task of the process that is not
 \* dead sits in a tracing stop
-NotStopped(tasks) == {t \in ProbeTids(tasks) : tasks[ToString(t)] \notin {"t", "Z", "X"}}
-LiveByProbe(tasks) == {t \in ProbeTids(tasks) : tasks[ToString(t)] \notin {"Z", "X"}}
+\* (a task the tracer has released from its PTRACE_EVENT_EXIT stop runs the kernel's exit path for a moment
+\* before it shows as Z: it executes no user code any more and is not a live thread -- model state zombie)
+Dying(t) == kst[t] \in {"zombie", "exited"}
+NotStopped(tasks) == {t \in ProbeTids(tasks) : tasks[ToString(t)] \notin {"t", "Z", "X"} /\ ~Dying(t)}
+LiveByProbe(tasks) == {t \in ProbeTids(tasks) : tasks[ToString(t)] \notin {"Z", "X"} /\ ~Dying(t)}
 \* kernel-model validation: a task the model holds stopped must show `t` (else the MODEL is wrong)
 ProbeDisagrees(tasks) == {t \in Tids : kst[t] = "stopped" /\ TaskState(tasks, t) # "t"}
 ProbeChecks(act, tasks) ==
@@ -157,25 +160,30 @@ Resume(single) ==
         /\ viol' = viol \o
              (IF mid[t] THEN <<V("resume_mid_instruction", Ev.ev, "pc rewound to the breakpoint address", [tid |-> t])>> ELSE <<>>) \o
              \* resumed over a lifted breakpoint while its arrival was never reported: the hit is lost
-             (IF owed[t] /\ ~mid[t] /\ at[t] \notin code /\ kstop[t] # "event_exit" /\ ~intr[t]
+             (IF owed[t] /\ ~mid[t] /\ at[t] \notin code /\ kstop[t] # "event_exit" /\ intr[t] # "yes"
                 THEN <<V("missed_arrival", Ev.ev, "reported before the thread passes", [tid |-> t, pc |-> at[t]])>> ELSE <<>>)
-        /\ owed' = IF owed[t] /\ ~mid[t] /\ at[t] \notin code /\ kstop[t] # "event_exit" /\ ~intr[t]
+        /\ owed' = IF owed[t] /\ ~mid[t] /\ at[t] \notin code /\ kstop[t] # "event_exit" /\ intr[t] # "yes"
                      THEN [owed EXCEPT ![t] = FALSE] ELSE owed
         /\ IF kstop[t] = "event_exit"
              THEN /\ kst' = [kst EXCEPT ![t] = "zombie"] /\ unrep' = [unrep EXCEPT ![t] = TRUE]
                   /\ kstop' = [kstop EXCEPT ![t] = "none"] /\ UNCHANGED <<intr, sstep, mid, at>>
-             ELSE IF intr[t]      \* a pending trap-stop fires before the task reaches user mode again
+             ELSE IF intr[t] = "yes"   \* a pending trap-stop fires before the task reaches user mode again
              THEN /\ kstop' = [kstop EXCEPT ![t] = "event_stop"] /\ unrep' = [unrep EXCEPT ![t] = TRUE]
-                  /\ intr' = [intr EXCEPT ![t] = FALSE] /\ UNCHANGED <<kst, sstep, mid, at>>
+                  /\ intr' = [intr EXCEPT ![t] = "no"] /\ UNCHANGED <<kst, sstep, mid, at>>
              ELSE /\ kst' = [kst EXCEPT ![t] = "running"] /\ kstop' = [kstop EXCEPT ![t] = "none"]
                   /\ sstep' = [sstep EXCEPT ![t] = single]
                   /\ mid' = [mid EXCEPT ![t] = FALSE]          \* (a corrupt resume was recorded above)
-                  /\ UNCHANGED <<unrep, intr, at>>
+                  \* "maybe": it is not known whether the trap was requested before or after the task entered
+                  \* the stop it is resumed from; if before it is gone, if after it fires at once ("stale")
+                  /\ intr' = [intr EXCEPT ![t] = IF @ = "maybe" THEN "stale" ELSE @]
+                  /\ UNCHANGED <<unrep, at>>
    /\ UNCHANGED <<sid, main, bps, pass, code, prompt, nrep, stats>>
 
 Interrupt == /\ Is("interrupt") /\ Adv /\ Known(Ev.tid)
              /\ IF Ev.ret = 0 THEN /\ kst[Ev.tid] \in {"running", "stopped"}
-                                   /\ intr' = [intr EXCEPT ![Ev.tid] = TRUE]
+                                   \* a request on top of a "stale" one: the task either sits in the unreported
+                                   \* event stop already (and keeps this request pending) or takes it now: "both"
+                                   /\ intr' = [intr EXCEPT ![Ev.tid] = IF @ \in {"stale", "both"} THEN "both" ELSE "yes"]
                 ELSE kst[Ev.tid] \in {"zombie", "exited", "unborn"} /\ UNCHANGED intr
              /\ UNCHANGED <<sid, main, bps, pass, kst, kstop, unrep, mid, sstep, at, code, prompt, owed, nrep, viol, stats>>
 
@@ -195,12 +203,16 @@ Need(t, k) == Is("wait") /\ Ev.tid = t /\ Ev.kind = k /\ ~unrep[t]
 Stop(t, k) == /\ kst' = [kst EXCEPT ![t] = "stopped"] /\ kstop' = [kstop EXCEPT ![t] = k]
               /\ unrep' = [unrep EXCEPT ![t] = TRUE]
 \* "any trap clears a pending STOP trap": if the interrupt was requested before the task entered this
-\* stop the pending bit is gone, if it was requested while the task already sat in the stop it survives
-MaybeClear(t) == intr' = intr \/ intr' = [intr EXCEPT ![t] = FALSE]
+\* stop the pending bit is gone, if it was requested while the task already sat in the stop it survives.
+\* Thread steps are inferred lazily, so for a request logged while the model still held the task running
+\* the order is unknown: "maybe" (resolved at the next resume / wait, no branching).  A "stale" maybe that
+\* did not fire right after the resume was not pending.
+MaybeClear(t) == intr' = [intr EXCEPT ![t] = IF @ \in {"yes", "both"} THEN "maybe" ELSE "no"]
 Silent == \E t \in Tids :
    /\ UNCHANGED <<l, sid, main, bps, pass, code, prompt, owed, nrep, viol, stats>>
-   /\ \/ /\ kst[t] = "running" /\ intr[t] /\ Need(t, "event_stop")
-         /\ Stop(t, "event_stop") /\ intr' = [intr EXCEPT ![t] = FALSE] /\ UNCHANGED <<mid, sstep, at>>
+   /\ \/ /\ kst[t] = "running" /\ intr[t] \in {"yes", "stale", "both"} /\ Need(t, "event_stop")
+         /\ Stop(t, "event_stop") /\ intr' = [intr EXCEPT ![t] = IF @ = "both" THEN "maybe" ELSE "no"]
+         /\ UNCHANGED <<mid, sstep, at>>
       \/ \* a new thread is born in an event stop (its creator's PTRACE_EVENT_CLONE may be seen later)
          /\ kst[t] = "unborn" /\ Need(t, "event_stop")
          /\ Stop(t, "event_stop") /\ UNCHANGED <<intr, mid, sstep, at>>
